@@ -82,6 +82,18 @@ violated instance.  Clause numbers refer to DESIGN.md section 5 "C10".
                                   of c's key with the key of the element it replaces (same key function on both sides, any
                                   operand order, named locals followed), and the smallest / largest slot (and insertion
                                   at begin()) use opposite directions
+  A4-classified-segments-marked-done   a function that adds segments to a ring AND asks find_enclosing_ring (the simple-case
+                                  builder) marks every segment it adds direction-done on every path (the flag and its setter
+                                  are derived: the bool member find_enclosing_ring reads through a const accessor of the
+                                  scanned segment, and the NodeRefSegment method that assigns it true)
+  S5-equal-group-skipped-entirely in the scan `it = adjacent_find(it, end)` of try_to_merge a new pair test is only reachable
+                                  after some test showed that a cursor is at the end or that its key differs from the one it is
+                                  compared with (or the cursor was re-positioned by an algorithm/helper): assuming "never at
+                                  the end, keys never differ" no cycle through the adjacent_find may exist
+  G6-scan-covers-location-group   find_enclosing_ring: every path from the entry into the backward scan loop takes an edge on
+                                  which `current segment starts at the query location` is false (the condition is recognised
+                                  semantically: SymExec over all order types shows it is equivalent to first() == location)
+                                  or on which the pointer is the last segment of the list
  segments
   G5-segment-end-points-differ    a segment is stored in the segment vector only under guards that decide (for all
                                   coordinate values AND node ids, by SymExec) that the two end LOCATIONS differ -- the
@@ -1183,6 +1195,67 @@ def ray_rule(M, R, G):
             'considered; ending: %s, starting: %s' % (sorted(v1), sorted(v2)))
 
 
+    # ---- G6: the backward scan starts behind EVERY segment that starts at the location
+    scan = [l for l in scan_loops if fn.in_range(u['id'], l['b'], l['e'])]
+    if not scan:
+        R.broken('%s: the counter update is not inside a loop that moves the segment pointer' % key0)
+        return
+    scan = min(scan, key=lambda l: l['e'] - l['b'])
+    in_back = lambda nid: fn.in_range(nid, scan['b'], scan['e'])
+
+    def eff_cond(blk):
+        c = blk['cond']
+        if blk.get('termcls') == 'BinaryOperator':
+            return c
+        n = fn.sn(c)
+        hops = 0
+        while n is not None and n.get('k') == 'binop' and n['op'] in ('&&', '||') and hops < 6:
+            c = n['rhs']
+            n = fn.sn(c)
+            hops += 1
+        return c
+    prune = {}          # block id -> successor index that may not be taken
+    for bid, blk in fn.blocks.items():
+        if 'cond' not in blk or len(blk['succs']) != 2 or in_back(blk['cond']):
+            continue
+        c = eff_cond(blk)
+        cn = fn.sn(c)
+        # end-of-list test: the pointer compared with the address of the last / one-past-last segment
+        if cn is not None and cn.get('k') == 'binop' and cn['op'] in ('==', '!='):
+            sides = [fn.sn(cn['lhs']), fn.sn(cn['rhs'])]
+            ptr = [x for x in sides if x is not None and x.get('k') == 'var' and x.get('d') == P]
+            other = [y for y in (cn['lhs'], cn['rhs']) if (fn.sn(y) or {}).get('d') != P]
+            if ptr and other and any(fn.nodes[x].get('k') == 'call' and fn.nodes[x].get('q', '').rsplit('::', 1)[-1] in ('back', 'end', 'cend') for x in fn.subtree(other[0])):
+                prune[bid] = 0 if cn['op'] == '==' else 1
+                continue
+        vals = set()
+        for w in ws:
+            se = SymExec(fb, w)
+            env = make_env(se)
+            env[P] = cu if in_scan(c) else st
+            try:
+                v = se.ev(fn, c, env)
+            except Unsupported:
+                v = None
+            if isinstance(v, Poly):
+                sg = se.sign(v)
+                v = None if sg is None else (sg != 0)
+            vals.add((v if v in (True, False) else None) == at_loc(w) if v in (True, False) else None)
+            if None in vals or len(vals) > 1:
+                break
+        if vals == {True}:
+            prune[bid] = 1          # `starts at the location` is false: the group was left
+        elif vals == {False}:
+            prune[bid] = 0
+    inside = {e for b in fn.blocks.values() for e in b['elems'] if in_back(e)}
+    wit = path_search(fn, fn.entry, lambda e: e in inside, lambda e: is_noreturn(fn, e),
+                      lambda b, idx, s_: prune.get(b) != idx, from_block_start=True)
+    R.check(wit is None, 'G6-scan-covers-location-group', key0 + '#scan-starts-behind-every-segment-starting-at-the-location', fn.site,
+            'the backward scan can start although the segment under the pointer may still start at the query location (no test '
+            '`first().location() == location` failed and the end of the list was not reached): segments of the same start location that '
+            'follow in the sort order are never examined; path %s' % describe_path(fn, wit))
+
+
 # ====================================================================================================== [3] output
 
 def output_rules(M, R):
@@ -1883,6 +1956,141 @@ def extremum_rules(M, R):
         R.broken('A3: no guarded replacement of front()/back() found in %s (unknown shape of the candidate tracker)' % BA)
 
 
+def group_skip_rule(M, R):
+    """S5: in a scan `it = adjacent_find(it, end)` over a sorted container, a new pair test is only reached after some test
+    showed that the cursor is at the end or at an element whose key differs from the group's (or the cursor was
+    re-positioned by an algorithm / helper): a single step leaves the rest of an equal group to be taken for a pair."""
+    fb = M.fb
+    for s_ in M.sites:
+        fn = s_.fn
+        if s_.kind != 'adjacent' or not s_.partial or s_.container is None or not fn.q.startswith(BA + '::'):
+            continue
+        A = s_.node['id']
+        if not [l for l in fn.loops if fn.in_range(A, l['b'], l['e'])]:
+            continue
+        V = s_.container
+        key = '%s#next-pair-test-only-after-the-equal-group-was-left' % fn.q
+
+        def is_cursor(nid):
+            r = fn.root_var(nid)
+            n = fn.sn(nid)
+            if r is None or r[0] != 'var':
+                return None
+            ent = local_decl(fn, r[1])
+            return r[1] if ent is not None and '__normal_iterator' in ent[1]['tC'] else None
+
+        def hook(f, nid):
+            n = f.sn(nid)
+            if n is None or n.get('k') not in ('call', 'binop'):
+                return None
+            if n.get('k') == 'call':
+                if n.get('op') not in ('==', '!=') or n.get('recv') is not None:
+                    return None
+                args = [a for a in n.get('args', []) if a is not None]
+            else:
+                if n.get('op') not in ('==', '!='):
+                    return None
+                args = [n['lhs'], n['rhs']]
+            if len(args) != 2:
+                return None
+            ends = [any(f.nodes[x].get('k') == 'call' and f.nodes[x].get('q', '').rsplit('::', 1)[-1] in ('end', 'cend') and f.root_var(f.nodes[x].get('recv')) == V
+                        for x in f.subtree(a)) for a in args]
+            curs = [is_cursor(a) for a in args]
+            if ends[0] != ends[1] and (curs[1] if ends[0] else curs[0]) is not None:
+                return n.get('op') == '!='                 # assume: no cursor is at the end
+            if (curs[0] is not None or curs[1] is not None) and curs[0] != curs[1] and not any(ends):
+                t0, t1 = f.nodes[f.strip(args[0])].get('t', ''), f.nodes[f.strip(args[1])].get('t', '')
+                if '__normal_iterator' not in t0 and '__normal_iterator' not in t1 and S.strip_cvref(t0) == S.strip_cvref(t1) and not S.is_scalar(t0):
+                    return n.get('op') == '=='             # assume: the key under a cursor never differs from the key it is compared with
+            return None
+        facts = Facts()
+        facts.hook = hook
+
+        def repositioned(e):
+            if isinstance(e, tuple):
+                return False
+            n = fn.nodes.get(e, {})
+            if n.get('k') == 'call' and n.get('op') == '=' and n.get('recv') is not None and is_cursor(n['recv']) is not None and A not in fn.subtree(e):
+                for x in [y for a in n.get('args', []) if a is not None for y in fn.subtree(a)]:
+                    c = fn.nodes[x]
+                    if c.get('k') == 'call' and 'op' not in c and c.get('q') not in ('std::next', 'std::prev', 'std::advance') and \
+                            c.get('q', '').rsplit('::', 1)[-1] not in ('begin', 'cbegin', 'end', 'cend'):
+                        return True
+            return False
+        w = path_search(fn, A, lambda e: e == A, lambda e: repositioned(e) or is_noreturn(fn, e), edge_filter(fn, facts))
+        R.check(w is None, 'S5-equal-group-skipped-entirely', key, s_.loc,
+                'the next adjacent_find can be reached without any test having shown that the cursor left the group of equal keys (or the '
+                'end): with more than two equal elements the remaining ones are taken for an unambiguous pair; path %s' % describe_path(fn, w))
+
+
+def direction_mark_rule(M, R):
+    """A4: a function that classifies rings while it builds them (adds segments to a ring AND asks find_enclosing_ring)
+    marks every segment it adds direction-done on every path: find_enclosing_ring ignores unmarked segments."""
+    fb = M.fb
+    acc, _sum = _sum_accumulators(M)
+    fer = [f for f in fb.fns(BA + '::find_enclosing_ring') if f.has_cfg]
+    if not acc or not fer:
+        R.broken('A4: accumulating ring methods / find_enclosing_ring not found')
+        return
+    # the flag find_enclosing_ring reads through a const accessor of the scanned segment, and the method that sets it
+    flags = set()
+    for c in calls_of(fer[0]):
+        if c.get('rcls') == NRS:
+            for g in callee_bodies(fb, c):
+                rets = [n for n in g.all_nodes() if n.get('k') == 'return' and 'sub' in n]
+                if g.const and len(rets) == 1 and g.is_this_member(rets[0]['sub']) and S.strip_cvref(g.sn(rets[0]['sub']).get('t', '')) == 'bool':
+                    flags.add(g.sn(rets[0]['sub'])['q'])
+    markers = set()
+    for g in fb.functions:
+        if g.cls == NRS and g.has_cfg and g.kind == 'method':
+            for n in g.all_nodes():
+                if n.get('k') == 'assign' and n.get('op') == '=' and g.is_this_member(n['lhs']) and g.sn(n['lhs'])['q'] in flags and g.const_value(n['rhs']) == 1:
+                    markers.add(g.usr)
+    if not markers:
+        R.broken('A4: cannot identify the flag find_enclosing_ring tests on a segment and the method that sets it')
+        return
+    n_inst = 0
+    for f in M.fns:
+        if f.is_lambda or not f.q.startswith(BA + '::') or not [c for c in calls_of(f, BA + '::find_enclosing_ring') if live(f, c['id'])]:
+            continue
+        adds = []
+        ctor_acc = [(u, i) for u, (g, i) in acc.items() if g.kind == 'ctor']
+        for c in calls_of(f):
+            if not live(f, c['id']):
+                continue
+            args = [a for a in c.get('args', []) if a is not None]
+            if c.get('u') in acc and acc[c['u']][1] < len(c.get('args', [])) and c['args'][acc[c['u']][1]] is not None:
+                adds.append((c, c['args'][acc[c['u']][1]]))
+            elif ctor_acc and c.get('q', '').rsplit('::', 1)[-1] in ('emplace_back', 'emplace_front', 'emplace') and c.get('recv') is not None and \
+                    base_type(S.element_type(S.strip_cvref(f.nodes[f.strip(c['recv'])].get('t', ''))) or '') == PR and ctor_acc[0][1] < len(args):
+                adds.append((c, args[ctor_acc[0][1]]))
+        if not adds:
+            continue
+        n_inst += 1
+        key = '%s#segments-added-while-classifying-are-marked-direction-done' % fkey(f)
+        why, site = None, f.site
+        for (c, a) in adds:
+            ta, root = f.expr(f.strip(a)), f.root_var(a)
+            marks = {m['id'] for m in calls_of(f) if m.get('u') in markers and m.get('recv') is not None and f.expr(f.strip(m['recv'])) == ta}
+            ent = local_decl(f, root[1]) if root is not None and root[0] == 'var' else None
+
+            def rebinds(e):
+                n = f.nodes.get(e, {}) if not isinstance(e, tuple) else {}
+                return n.get('k') == 'decl' and root is not None and any(v['d'] == root[1] for v in n['vars'])
+            if ent is not None:
+                before = path_search(f, ent[0]['id'], lambda e: e == c['id'], lambda e: e in marks)
+            else:
+                before = path_search(f, f.entry, lambda e: e == c['id'], lambda e: e in marks, from_block_start=True)
+            after = path_search(f, c['id'], lambda e: rebinds(e) or (isinstance(e, tuple) and e[0] == 'exit'), lambda e: e in marks or is_noreturn(f, e))
+            if before is not None and after is not None and why is None:
+                why, site = ('`%s` is added to a ring by `%s` but not marked direction-done on the path %s ... %s: find_enclosing_ring() '
+                             'skips segments without the mark, so later rings are classified without it' % (
+                                 ta, f.expr(c['id'])[:40], describe_path(f, before)[-80:], describe_path(f, after)[-60:])), f.loc(c['id'])
+        R.check(why is None, 'A4-classified-segments-marked-done', key, site, why or '')
+    if n_inst == 0:
+        R.broken('A4: no function of %s both adds segments to a ring and calls find_enclosing_ring (unknown shape of the simple-case builder)' % BA)
+
+
 def end_points_rule(M, R, G):
     """G5: a segment is stored only under a test that decides that the LOCATIONS of its two end points differ."""
     fb = M.fb
@@ -1952,6 +2160,8 @@ def all_rules(fb, R):
     ring_sum_rules(M, R)
     reset_rules(M, R)
     extremum_rules(M, R)
+    group_skip_rule(M, R)
+    direction_mark_rule(M, R)
     try:
         G = Geo(fb)
         normal_form_rule(M, R, G)
@@ -1991,6 +2201,9 @@ def run(ctx):
     R.expect('G5-segment-end-points-differ', 2)
     R.expect('A2-reset-undoes-tentative-classification', 3)
     R.expect('A3-extremum-tracker-consistent', 3)
+    R.expect('G6-scan-covers-location-group', 1)
+    R.expect('S5-equal-group-skipped-entirely', 1)
+    R.expect('A4-classified-segments-marked-done', 1)
 
 
 # ====================================================================================================== positive self-test
@@ -2023,4 +2236,5 @@ SELFTESTS = [(rule, 'c10_assembler.cpp', _selftest_all) for rule in (
     'G4-ray-crossing-interval', 'R1-rings-added-only-after-success', 'R2-create-area-result', 'R3-commit-only-on-success',
     'R4-ring-roles-in-output', 'D1-duplicates-cancel-in-pairs', 'P4-valid-input-within-limits-is-assembled',
     'A1-ring-sum-matches-segment-directions', 'G5-segment-end-points-differ', 'A2-reset-undoes-tentative-classification',
-    'A3-extremum-tracker-consistent')]
+    'A3-extremum-tracker-consistent', 'G6-scan-covers-location-group', 'S5-equal-group-skipped-entirely',
+    'A4-classified-segments-marked-done')]
